@@ -15,10 +15,12 @@
      4 a stored (non-deferring) attribute other than the assigned one changed (delegate only /
        prototype untouched)
      5 outcome: an assignment valid for the target's trait was rejected or an invalid one accepted
-       (TraitError expected from the target's trait)
+       (TraitError expected from the target's trait); deleting the local value of a PrototypedFrom
+       attribute raised
      6 a failed operation changed a value, a local or notified
      7 forwarding: a change of the target notifies a deferring attribute iff it is linked to it
-       (exactly once, with the new value); an unlinked one is not notified *)
+       (exactly once, with the new value); an unlinked one is not notified; listenable=False is the
+       documented opt-out: such an attribute is not notified and nothing travels beyond it *)
 From Coq Require Import ZArith List Bool Arith.
 From TV Require Import Common.Harness C11.Model.
 Import ListNotations.
@@ -40,7 +42,7 @@ Definition g_index (g : cfg) (o : oid) (n : name) : option nat :=
 Definition exn_eqb (a b : exn) : bool :=
   match a, b with
   | TraitError, TraitError | AttributeError, AttributeError | DelegationError, DelegationError
-  | RecursionError, RecursionError | OtherError, OtherError => true
+  | RecursionError, RecursionError | KeyError, KeyError | OtherError, OtherError => true
   | _, _ => false
   end.
 Definition rdres_eqb (a b : rdres) : bool :=
@@ -79,6 +81,23 @@ Fixpoint spath (fuel : nat) (g : cfg) (reads : list (list rdres)) (loc : list (l
            | _ => []
            end
   end.
+(* the chain as far as notifications travel along it: a deferring attribute declared with
+   listenable=False has no forwarder (documented opt-out), so nothing is demanded beyond it *)
+Definition g_listenable (g : cfg) (x : node) : bool := negb (unlisted (snd x) (g_cls g (fst x))).
+Fixpoint fpath (fuel : nat) (g : cfg) (reads : list (list rdres)) (loc : list (list bool)) (x : node) : list node :=
+  match fuel with
+  | O => [x]
+  | S f =>
+      x :: match g_trait g (fst x) (snd x) with
+           | Some (Deleg d r _) =>
+               if olocal g loc x || negb (g_listenable g x) then []
+               else match oread g reads (fst x, d) with
+                    | RV (VObj p) => fpath f g reads loc (p, attr_name r (c_prefix (g_cls g (fst x))) (snd x))
+                    | _ => []
+                    end
+           | _ => []
+           end
+  end.
 Definition spath_fuel : nat := 8.
 Definition path (g : cfg) (reads : list (list rdres)) (loc : list (list bool)) (x : node) : list node :=
   spath spath_fuel g reads loc x.
@@ -101,11 +120,15 @@ Definition lspec := list (node * value).
 Fixpoint lget (x : node) (l : lspec) : option value :=
   match l with [] => None | (y, v) :: r => if node_eqb x y then Some v else lget x r end.
 Definition ldel (x : node) (l : lspec) : lspec := filter (fun e => negb (node_eqb x (fst e))) l.
-Definition lspec_after (g : cfg) (L : lspec) (o : op) (out : outcome) : lspec :=
-  match out, o with
-  | Done, Set_ x n v => if is_deleg g (x, n) && negb (is_modify g (x, n)) then ((x, n), v) :: ldel (x, n) L else L
-  | Done, Del x n => ldel (x, n) L
-  | _, _ => L
+Definition lspec_after (g : cfg) (L : lspec) (o : op) (ob : obs) : lspec :=
+  match o with
+  | Set_ x n v =>
+      if outcome_eqb (ob_out ob) Done && is_deleg g (x, n) && negb (is_modify g (x, n))
+      then ((x, n), v) :: ldel (x, n) L else L
+  | Del x n =>
+      (* a deletion that raised AFTER removing the value is charged once, by clauses 5 / 6, not again
+         at every later step *)
+      if outcome_eqb (ob_out ob) Done || negb (olocal g (ob_local ob) (x, n)) then ldel (x, n) L else L
   end.
 
 Definition checked (t : option trait) (v : value) : option (option value) :=
@@ -123,7 +146,7 @@ Definition events_carry (x : node) (w : rdres) (evs : list event) : bool :=
 Definition law_step (g : cfg) (L : lspec) (before : obs) (o : op) (ob : obs) : list Z :=
   let rb := ob_reads before in let lb := ob_local before in
   let ra := ob_reads ob in let la := ob_local ob in
-  let L' := lspec_after g L o (ob_out ob) in
+  let L' := lspec_after g L o ob in
   let nodes := all_nodes g in
   let failed := negb (outcome_eqb (ob_out ob) Done) in
   (* the node whose value the operation is meant to change *)
@@ -163,7 +186,12 @@ Definition law_step (g : cfg) (L : lspec) (before : obs) (o : op) (ob : obs) : l
                 | Some None => outcome_eqb (ob_out ob) (Raised TraitError)
                 | None => true
                 end
-            | Del _ _ => true
+            | Del x n =>                               (* deleting a local value restores the link: no exception *)
+                negb (is_deleg g (x, n)) || is_modify g (x, n)
+                || match vtrait g rb lb (x, n) with
+                   | Some (Normal _ _) | Some Link => outcome_eqb (ob_out ob) Done
+                   | _ => true
+                   end
             end)
   ++ chk 6 (negb failed
             || (list_eqb (list_eqb rdres_eqb) ra rb && list_eqb (list_eqb Bool.eqb) la lb
@@ -172,7 +200,7 @@ Definition law_step (g : cfg) (L : lspec) (before : obs) (o : op) (ob : obs) : l
             || forallb (fun y =>
                  negb (is_deleg g y)
                  || (if node_eqb y X then Nat.leb (count_events y (ob_events ob)) 1
-                     else if changed && existsb (node_eqb X) (path g ra la y)
+                     else if changed && existsb (node_eqb X) (fpath spath_fuel g ra la y)
                           then Nat.eqb (count_events y (ob_events ob)) 1
                                && events_carry y (oread g ra X) (ob_events ob)
                           else Nat.eqb (count_events y (ob_events ob)) 0)) nodes).
@@ -182,5 +210,5 @@ Fixpoint law_hist (g : cfg) (i : Z) (L : lspec) (before : obs) (h : list (op * o
   | [] => []
   | (o, ob) :: r =>
       map (fun c => 100 * i + c) (law_step g L before o ob)
-      ++ law_hist g (i + 1) (lspec_after g L o (ob_out ob)) ob r
+      ++ law_hist g (i + 1) (lspec_after g L o ob) ob r
   end.
